@@ -39,9 +39,7 @@ CLAIMED = {
 }
 
 NOT_YET = {
-    "_C02": "history/timeline trace specification not built yet in this round (planned: TraceSession.tla)",
-    "_C07": "segmentation suites not built yet", "C08": "segmentation suites not built yet",
-    "_C09": "segmentation suites not built yet", "C10": "feature-switching suite not built yet",
+ "C10": "feature-switching suite not built yet",
     "C12": "import pipeline specification not built yet", "C13": "relabel specification not built yet",
     "C14": "round-trip specification not built yet", "C15": "subset-export specification not built yet",
     "C16": "read-only specification not built yet", "C17": "name-map specification not built yet",
@@ -74,7 +72,8 @@ def main():
                      "explicit TLA+ specification checked by TLC; conformance by catalogue replay (spec->code) and "
                      "TLC trace checking of recorded real transitions (code->spec)"}],
         "checks": checks,
-        "not_applicable": [{"property_id": k, "reason": v} for k, v in NOT_YET.items() if k not in CLAIMED],
+        "not_applicable": [{"property_id": k, "reason": v} for k, v in NOT_YET.items()
+                           if k not in CLAIMED and not k.startswith("_")],
         "notes": "See DESIGN.md. Genuine defects repaired in /repo are listed in known_findings.json as fixed: entries.",
     }
     json.dump(m, open(os.path.join(ROOT, "MANIFEST.json"), "w"), indent=1)
